@@ -12,10 +12,11 @@ pub mod pathstack;
 pub mod pktline;
 pub mod refstore;
 pub mod selftest;
+pub mod wtstream;
 pub mod zstream;
 
 pub fn all() -> Vec<&'static dyn Scenario> {
-    vec![&selftest::SelfTest, &parallel::Parallel, &refstore::RefStore, &pktline::PktLine, &pathstack::PathStack, &zstream::ZStream, &locks::Locks, &odb::OdbRepack, &loose::LooseStore]
+    vec![&selftest::SelfTest, &parallel::Parallel, &refstore::RefStore, &pktline::PktLine, &pathstack::PathStack, &zstream::ZStream, &locks::Locks, &odb::OdbRepack, &loose::LooseStore, &wtstream::WtStream]
 }
 
 /// Which scenario decides a property.
